@@ -41,7 +41,7 @@ Section Complete.
     eexists id, _. split; [exact Hid|]. split; [exact Hg|]. exact (filter_from_key cx id _ sp cd Hdist Hg Hcd Hkey).
   Qed.
 
-  Lemma restr_stage a u p : received P = ROk (a, u, p) -> check_restrictions cfg_fixed R P cx (u ++ a) p = ROk tt.
+  Lemma restr_stage a u p : received P = ROk (a, u, p) -> check_restrictions cfg_fixed R P cx (a ++ u) p = ROk tt.
   Proof.
     intros Hrec. destruct (received_assoc P a u p Hrec) as [Aattr Apred].
     unfold restr_true_legacy in Htrue. apply andb_true_iff in Htrue as [Ta Tp]. rewrite forallb_forall in Ta, Tp.
@@ -79,7 +79,7 @@ Section Complete.
     pose proof (verify_legacy_accept cfg_fixed _ _ _ Hbase) as A.
     destruct A as [aids uids pids regmap subs Hrec Hcmp Hval _ Hreg Hloop Hlen Hcl].
     rewrite strip_compare in Hcmp. rewrite strip_values in Hval. rewrite strip_loop in Hloop.
-    unfold verify_legacy. rewrite Hrec. cbn [bind]. rewrite Hcmp. cbn [bind]. rewrite Hval. cbn [bind].
+    unfold verify_legacy. rewrite Hrec. cbn [bind]. rewrite Hcmp. cbn [bind]. rewrite Hval. cbn [bind f_restr_revealed_first cfg_fixed].
     rewrite (restr_stage _ _ _ Hrec). cbn [bind]. rewrite Hreg. cbn [bind]. rewrite Hloop. cbn [bind].
     rewrite Hlen, Z.eqb_refl. cbn [guard bind]. exact Hcl.
   Qed.
